@@ -311,6 +311,33 @@ def observe(ctx: fw.Ctx, names):
                          f"{path!r} on {doc!r}: after set {get(t1, names_p)!r}, after second set {get(t2, names_p)!r}, "
                          f"after rm {get(t3, names_p)!r} (texts {o1!r}, {o2!r}, {o3!r})")
 
+    # two QUOTED spellings of one name (sixth widening, after seeded round 6): a file token that is not in
+    # the escape form the tool writes (raw control character, needless escape) and the path segment in
+    # canonical form address the same attribute — `set` leaves exactly one definition, `rm` finds it
+    for name, file_tok in [("a\tb", '"a\tb"'), ("a.b", '"a\\.b"'), ("$x", '"\\$x"'), ("a", '"\\a"'), ("a\nb", '"a\nb"'),
+                           ("q r", '"q\\ r"'), ("k-1", '"k\\-1"'), ("a\rb", '"a\rb"')]:
+        for seg in {render_seg(name), '"' + name.replace("\\", "\\\\").replace('"', '\\"').replace("\t", "\\t").replace("\n", "\\n").replace("\r", "\\r") + '"'}:
+            doc = "{ " + file_tok + " = 1; b = 0; }"
+            ctx.case({"doc": doc, "path": seg, "quoted-pair": True}, True)
+            try:
+                if cstread.plain(cstread.read_doc_tree(doc)) != {name: "1", "b": "0"}:
+                    continue  # the independent reader does not read the token as that name: not a witness
+                out = M.set_value(parse(doc), seg, "2")
+                try:
+                    tree = cstread.plain(cstread.read_doc_tree(out))
+                except cstread.Duplicate as exc:
+                    tree = ("duplicate", str(exc))
+                if tree != {name: "2", "b": "0"}:
+                    ctx.fail({"clause": "spelling", "file": "quoted-noncanonical"}, {"doc": doc, "path": seg, "output": out},
+                             f"set {seg!r} on {doc!r}: the file's {file_tok!r} and the path denote the attribute {name!r}; got {out!r}")
+                out = M.remove_value(parse(doc), seg)
+                if cstread.plain(cstread.read_doc_tree(out)) != {"b": "0"}:
+                    ctx.fail({"clause": "spelling", "file": "quoted-noncanonical"}, {"doc": doc, "path": seg, "output": out},
+                             f"rm {seg!r} on {doc!r} left {out!r}")
+            except Exception as exc:  # noqa: BLE001
+                ctx.fail({"clause": "spelling", "file": "quoted-noncanonical"}, {"doc": doc, "path": seg},
+                         f"set / rm {seg!r} on {doc!r} raised {type(exc).__name__}: {exc} although the file defines {name!r}")
+
     # the command line hands the path to the library unchanged: a sample of names (non-ASCII in several
     # normalisation forms, spaces, dots, quotes) through `python -m nix_manipulator set|rm`
     cli_paths(ctx)
